@@ -265,6 +265,13 @@ def chaos(rnd, plan, W, heavy=False):
                 raw["brokers"] = raw["brokers"] + [(b[0], b[1] + 50, b[2]) for b in raw["brokers"][:1]]
                 raw["topics"] = raw["topics"] + raw["topics"][:1]
                 plan["meta_by_topic"][k] = raw
+    if plan.get("metas") and r() < 0.08:
+        # a response that names NO broker (client.py:540: then nothing may be closed, even on a full refresh)
+        raw = copy.deepcopy(plan["metas"][0])
+        raw["brokers"] = []
+        if r() < 0.7:
+            raw["topics"] = [(te, t, [(pe, p, -1) for pe, p, _l in parts]) for te, t, parts in raw["topics"]]
+        plan["metas"] = [raw]
     if r() < 0.04:
         plan["meta_by_topic"] = {}
         plan["meta_default"] = {"brokers": [], "topics": []}
@@ -652,6 +659,19 @@ def mon_reresolve(ob, bad):
         bad.append(("C08_reresolve", "metadata request for the wrong topic", loads[0]["asked"], miss[0]))
 
 
+def mon_connect_addr(ob, bad):
+    """C08_next_connect_address: a broker client without a live connection dials the address the cache has for
+    its node (checked on sends that needed no lookup, so the view before the call is the cache at send time)"""
+    op, before = ob["op"], ob["before"]
+    if op["op"] != "send" or ob["pump"]["loads"] or before.get("closed"):
+        return
+    for q in ob["pump"]["reqs"]:
+        c = before["clients"].get(q["node"])
+        if c is not None and not c[2] and tuple(q["addr"]) != tuple(c[:2]):
+            bad.append(("C08_next_connect_address", "unconnected broker client dialled another address than its target",
+                        q["node"], q["addr"], c[:2]))
+
+
 def expected_nodes(ob):
     """leader / coordinator of every payload under the cache at ITS resolution time: the view before the op,
     updated by the responses of the loads the op performed, in order (None = cannot be determined)"""
@@ -834,6 +854,7 @@ def monitors(hist, obs, which):
             if kind == "send":
                 mon_invalidate(ob, bad)
                 mon_reresolve(ob, bad)
+                mon_connect_addr(ob, bad)
         else:
             if kind == "send":
                 mon_routing(ob, bad)
